@@ -51,6 +51,7 @@ func checkC07(c *Ctx) {
 	c07Seq(c, dec, enc)
 	c07IV(c)
 	c07Deliver(c)
+	// c07Bounds(c) -- record-layer buffer bounds: needs heap post-conditions, not armed
 }
 
 func c07Reject(c *Ctx, dec *ssa.Function) {
@@ -732,4 +733,19 @@ func c07MacFn(c *Ctx) {
 		}
 		c.Check(okRet, rule, fname(f), "the MAC returned is the sum taken after seq, header and data", "", "the returned value is not the hash sum over seq||header||data", sum.Pos())
 	}
+}
+
+// c07Bounds: the record layer's buffer arithmetic on the receiving side cannot index out of range whatever the
+// peer sends (record header, lengths, explicit nonce / IV, MAC and padding removal)
+func c07Bounds(c *Ctx) {
+	var fs []*ssa.Function
+	for _, n := range []string{"(*halfConn).decrypt", "extractPadding", "extractPaddingSSL30", "(*Conn).readRecord", "(*block).readFromUntil", "(*block).resize", "(*block).reserve", "(*block).Read", "(*halfConn).splitBlock", "(*halfConn).newBlock"} {
+		if f := c.Fn("gmtls", n); f != nil {
+			fs = append(fs, f)
+		} else {
+			c.Missing("B-IDX", "gmtls."+n, "record-layer function", "not found")
+		}
+	}
+	st := bidx(c, "B-IDX", fs, map[string]string{})
+	c.Notes = append(c.Notes, fmt.Sprintf("B-IDX: %d sites, %d compiler, %d LinBounds, %d unproven", st.sites, st.compiler, st.lin, st.unproved))
 }
